@@ -61,7 +61,7 @@ Definition step_b (s : state) (e : bevent) : state * bool * option exn :=
       if has_conn c s then (s, false, None)
       else
         let s1 := set_conns s (conns s ++ [(c, new_conn)]) in
-        let '(s2, x) := run_m (on_open c) s1 in (s2, true, x)
+        let '(s2, x) := run_m (on_open cfg c) s1 in (s2, true, x)
   | ECmd c m o =>
       if has_conn c s then
         match on_message cfg c m o s with
@@ -84,7 +84,7 @@ Definition step_b (s : state) (e : bevent) : state * bool * option exn :=
   end.
 
 Definition is_commit (l : log_entry) : bool :=
-  match l with LFrame _ _ _ => false | _ => true end.
+  match l with LFrame _ _ _ _ => false | _ => true end.
 
 (** prefix of an (oldest-first) log ending at its k-th commit; the whole log if it has fewer *)
 Fixpoint log_prefix (k : nat) (l : list log_entry) : list log_entry :=
@@ -105,7 +105,7 @@ Fixpoint replay_commits (l : list log_entry) (c : chan_db) (u : usage_db) : chan
   | [] => (c, u)
   | LCommitChan c' :: l' => replay_commits l' c' u
   | LCommitUsage u' :: l' => replay_commits l' c u'
-  | LFrame _ _ _ :: l' => replay_commits l' c u
+  | LFrame _ _ _ _ :: l' => replay_commits l' c u
   end.
 
 (** process start on the given files at time t: empty registries, fresh
